@@ -220,9 +220,10 @@ func checkFloat64(t ev.TB, buf buffer.Buffer, bits uint64) {
 			ev.Violation(t, c10, "float64-narrow-exact", fmt.Sprintf("float64 bits=%#x", bits), "float64 %v (exactly representable) read as float32: got %v n=%d err=%v", v, g32, m, err)
 		}
 	case math.Abs(v) > math.MaxFloat32:
-		// finite, magnitude beyond float32 (values that round to MaxFloat32 are allowed to round)
-		if err == nil && !(float32(v) == g32 && !math.IsInf(float64(g32), 0)) {
-			ev.Violation(t, c10, "float64-narrow-overflow", fmt.Sprintf("float64 bits=%#x", bits), "float64 %v exceeds float32 but read as float32 %v without error", v, g32)
+		// finite, magnitude beyond the float32 range: an overflow error, also for the values just above
+		// MaxFloat32 that a plain conversion would round down to it (saturating is silent truncation)
+		if err == nil {
+			ev.Violation(t, c10, "float64-narrow-overflow", fmt.Sprintf("float64 bits=%#x", bits), "float64 %v (bits %#016x) exceeds the float32 range but read as float32 %v without error", v, bits, g32)
 		}
 	default:
 		if err == nil && g32 != float32(v) {
@@ -317,7 +318,10 @@ func float64Edges() []uint64 {
 		}
 	}
 	// neighbours of +-MaxFloat32 and of the smallest float32 subnormal / normal
-	for _, f := range []float64{math.MaxFloat32, math.SmallestNonzeroFloat32, 0x1p-126, 0x1p-149, 0x1p-150, 0x1.fffffefffffffp+127, 0x1.ffffffp+127} {
+	for _, f := range []float64{math.MaxFloat32, math.SmallestNonzeroFloat32, 0x1p-126, 0x1p-149, 0x1p-150, 0x1.fffffefffffffp+127, 0x1.ffffffp+127,
+		// the window above MaxFloat32 in which a conversion rounds down to MaxFloat32 (up to half a float32 ulp = 2^103), and its ends
+		math.Nextafter(math.MaxFloat32, math.Inf(1)), math.MaxFloat32 + 0x1p80, math.MaxFloat32 + 0x1p100, math.MaxFloat32 + 0x1p102,
+		math.Nextafter(math.MaxFloat32+0x1p103, 0), math.MaxFloat32 + 0x1p103, math.Nextafter(math.MaxFloat32+0x1p103, math.Inf(1)), 0x1p128} {
 		b := math.Float64bits(f)
 		for d := -3; d <= 3; d++ {
 			out = append(out, b+uint64(d), (b+uint64(d))|1<<63)
